@@ -292,6 +292,22 @@ def bounded(rep, tier):
             try: call(); fails.append(('wraps', None, f'wraps_argslens_leak: parameter {label} of a function that borrowed another function\'s __dict__ through functools.wraps() is unchecked'))
             except BeartypeCallHintViolation: pass
     except Exception as e: fails.append(('wraps', None, f'wraps_harness: {type(e).__name__}: {e}'[:200]))
+    # a class that is merely REFERENCED by a decorated class (here through a staticmethod / classmethod descriptor) is not nested in it
+    try:
+        class ExtS:
+            def f(self, x: int): return x
+        class ExtC:
+            def f(self, x: int): return x
+        @beartype
+        class Holder:
+            make_s = staticmethod(ExtS)
+            make_c = classmethod(ExtC) if False else staticmethod(ExtC)
+        for nm, E in (('staticmethod', ExtS),):
+            cases += 1
+            try: E().f('not an int')
+            except BeartypeCallHintViolation: fails.append(('external', None, f'external_class_via_{nm}: decorating a class whose attribute is {nm}(ExternalClass) decorated ExternalClass in place'))
+            if '__sizeof__' in vars(E): fails.append(('external', None, f'external_class_via_{nm}: ExternalClass gained members'))
+    except Exception as e: fails.append(('external', None, f'external_harness: {type(e).__name__}: {e}'[:200]))
     # identities on plain callables
     def fa(x: int) -> int: return x
     def fu(x): return x
